@@ -165,6 +165,24 @@ def generate(tier, seed):
             for t in (itertools.product(args, repeat=n) if n <= 2 else [tuple(rng.choice(args) for _ in range(n)) for _ in range(25)]):
                 call = "(%s %s)" % (f, " ".join("(progn (tick %d) %s)" % (i + 1, a) for i, a in enumerate(t)))
                 lines += ["NEW", "EVAL " + call, "TICKS"]
+    # host functions applied to values that are already evaluated: through the higher-order built-ins and through
+    # TulispContext::funcall / map / filter / reduce (CTXCALL); values that are not self-evaluating (symbols, lists, quote /
+    # backquote / function-quote objects, a symbol bound to something else) must arrive as they are
+    hvals = ["1", "'sym", "''qa", "'(quote qb)", "'`bq", "'#'car", "'(car x)", '"s"', "nil", "x", "'(1 'two (3))", ":k", "2.5", "'',uq"]
+    pre = "EVAL (setq x 'xval) (setq sym 'symval) (setq qa 'qaval)"
+    for f in ["h-opt", "h-rest", "h-bool", "h-two", "h-int", "h-str", "h-float"]:
+        for _ in range(6 if tier == "quick" else 60):
+            a, b, c3 = (rng.choice(hvals) for _ in range(3))
+            lst = "(list %s %s %s)" % (a, b, c3)
+            reqs2 = ["(mapcar '%s %s)" % (f, lst), "(seq-map #'%s %s)" % (f, lst), "(seq-filter '%s %s)" % (f, lst), "(seq-find '%s %s)" % (f, lst),
+                     "(seq-reduce '%s %s %s)" % (f, lst, a), "(funcall '%s %s %s)" % (f, a, b), "(sort %s '%s)" % (lst, f),
+                     "(assoc %s (list (cons %s 1) (cons %s 2)) '%s)" % (a, b, c3, f), "(%s %s %s)" % (f, a, b)]
+            lines += ["NEW", pre] + ["EVAL " + q for q in reqs2]
+            lines += ["CTXCALL funcall (list '%s (list %s %s))" % (f, a, b), "CTXCALL funcall (list '%s (list %s))" % (f, a),
+                      "CTXCALL map (list '%s %s)" % (f, lst), "CTXCALL filter (list '%s %s)" % (f, lst),
+                      "CTXCALL reduce (list '%s %s %s)" % (f, lst, b), "CTXCALL funcall (list (lambda (p q) (list p q)) (list %s %s))" % (a, b),
+                      "CTXCALL map (list 'car (list (list %s) (list %s)))" % (a, b), "CTXCALL funcall (list 'nosuchfn (list 1))",
+                      "CTXCALL map (list (lambda (e) (tick 1) e) %s)" % lst, "TICKS", "DUMP x sym qa"]
     return {"lines": lines, "nontrivial": nt, "distribution": {"object_sequences": len(seqs), "symbol_sequences": len(sseqs), "list_helper_cases": hc}}
 
 def fix_symbol_shows(lines):
